@@ -75,6 +75,18 @@ CHECKS = {
     design_ref="DESIGN.md section 5 C05",
     note="Trusted: as C01. Type variables in scope (code 24) are not yet checked.",
     technique="per-program kernel evaluation of an executable reference resolver/checker (translation validation)"),
+ "C03": dict(
+    category="translation_validation",
+    text="Structural half, decided exactly: the relation ErasedFrom (only a declared variable type, a declared return type or the explicit-type-argument flag of a constructor / generic call may change; every other node, name, number, modifier and recorded type is identical) has a decision procedure proved equivalent to it (erased_from_iff), with the consequences erasure_only_removes_types, erasure_keeps_shape, erasure_is_local (Properties_C03.v). Semantic half: the reference type checker of C01 run in INFERENCE mode on the erased program -- a local variable whose declared type was removed gets the type synthesised for its initializer, i.e. what a compiler infers -- must still accept every typed position. Per run the real TypeErasure.transform() is applied to generated programs of the four languages and for every before/after pair the kernel proves ErasedFrom before after and only_codes typing_codes (check_program (infer:=true) ... after) = []. PARTIAL: the type-dependency analysis that chooses what to erase is not modelled (validated per program); erased return types and erased type arguments are not re-inferred by the checker (recorded types are used; calls whose type arguments are inferred are unchecked positions), so the diamond-inference defect seen with javac (DESIGN section 9 F8) is outside what this check can exhibit.",
+    design_ref="DESIGN.md section 5 C03",
+    note="Trusted: Coq kernel + VM; ir2coq serialiser; reference checker (lenient) as in C01.",
+    technique="exact Coq decision of the 'differs only by' relation + per-program kernel evaluation of the reference checker in inference mode (translation validation)"),
+ "C04": dict(
+    category="translation_validation",
+    text="The difference between the program before and after TypeOverwriting.transform() is computed in Coq by type_changes, proved to be defined iff nothing but types differs, empty iff the programs are identical and to list exactly the differing type slots (Properties_C04.v: type_changes_nil_iff, type_changes_same_skeleton, type_changes_complete); IR/Overwrite.v classifies it (exactly one declared variable/return type incl. its recorded copy, or exactly one explicit type argument of a constructor / generic call). For the single site the replaced and the new type are judged by the proved-sound reference subtype checker in the program's own class table (both directions must be refuted) and by hand-written language-level convertibility tables (primitive widening, boxing, reference widening to Number, the top type); the reference type checker must accept the input and report at least one typing error on the mutated program; the reported message must name both types and the node; when nothing is reported as injected the program must be unchanged. PARTIAL: candidate nodes / replacement types are the ones the mutation picks on the explored programs; the located-error requirement is 'the reference checker rejects', not a proof that every correct checker must.",
+    design_ref="DESIGN.md section 5 C04",
+    note="Trusted: Coq kernel + VM; ir2coq; reference checker (lenient); language convertibility tables in harness/c04.py. Known finding C04-F5 (language-level convertible replacements) is reported as KNOWN-FINDING.",
+    technique="proved-exact program diff + proved-sound subtype refutation + reference checker on before/after snapshots (translation validation)"),
 }
 
 NOT_APPLICABLE = {
@@ -82,7 +94,7 @@ NOT_APPLICABLE = {
  "C13": "The property is about CPython's pickle applied to ~40 IR classes; a Coq model would be a model of pickle and the only tie to the code would be the round-trip test itself (DESIGN.md section 6).",
 }
 
-PENDING = ["C03","C04","C11","C12","C18"]
+PENDING = ["C11","C12","C18"]
 
 def main():
     checks = []
